@@ -592,3 +592,21 @@ def delegation_swaps(P, fn):
             if r in own:
                 out.append((i, j, own[r], fn.params[own[r]]['name']))
     return out
+
+
+def expr_calls_deep(fn, node, depth=3):
+    """call nodes in the subtree of `node`, plus those in the defining expressions of the single-definition locals it mentions"""
+    out = list(fn.calls(node))
+    fn.defs_of_var('')
+    seen = set()
+    frontier = set(r for r in fn.subtree_refs(node) if r.startswith('v:'))
+    for _ in range(depth):
+        nxt = set()
+        for r in frontier - seen:
+            seen.add(r)
+            ds = fn._defs.get(r, [])
+            if len(ds) == 1 and ds[0][1] is not None:
+                out += list(fn.calls(ds[0][1]))
+                nxt |= set(x for x in fn.subtree_refs(ds[0][1]) if x.startswith('v:'))
+        frontier = nxt
+    return out
